@@ -210,7 +210,32 @@ fn enumerate_c02(cli: &Cli, r: &Report) {
             }
         }
     }
+    // Allocation that stops after the first rounds (lazy initialisation, amortised growth) under
+    // automatic sample size: the samples that are kept performed none, the discarded ones did.
+    for (entry, ishape, oshape) in shapes() {
+        for until in [1u64, 2, 4] {
+            for threads in [1usize, 2] {
+                for site in [SITE_CALL, SITE_GEN, SITE_DROP_OUT] {
+                    let mut base = LoopCase::basic(entry, ishape, oshape);
+                    if site == SITE_GEN && entry < 2 || site == SITE_DROP_OUT && !base.output_drops() {
+                        continue;
+                    }
+                    base.alloc[site] = 2;
+                    base.alloc_until_round = Some(until);
+                    base.threads = threads;
+                    base.sample_count = Some(2);
+                    base.sample_size = None;
+                    base.cost[SITE_CALL] = vec![30_000];
+                    index += 1;
+                    if cli.mine(index) {
+                        check(r, "C02", &base, index);
+                    }
+                }
+            }
+        }
+    }
     r.set_bounds(json!({
+        "lazy_allocation": "every shape x allocation only before round 1/2/4 x T in {1,2} x site in {call, generator, output drop}, automatic sample size",
         "alloc_scripts_per_site": nscripts, "sites": SITE_NAMES, "path_classes": path_classes().len(),
         "sample_sizes": [1,2], "plus": "all 72 (entry,shape) combinations with one fixed script vector, explicit and tuned size"
     }));
